@@ -357,6 +357,7 @@ class Tr:
             return []                           # docstring
         for head, lines in getattr(self, 'stmt_map', {}).items():
             if self.src(s).startswith(head):
+                self.declared[-1].update(getattr(self, 'stmt_map_declares', {}).get(head, ()))
                 return [ind + l for l in lines]
         if isinstance(s, ast.Assign):
             if len(s.targets) != 1:
@@ -483,6 +484,8 @@ class Tr:
             self.declared.pop()
             if any('←' in part for part in [cond]):
                 raise Unsupported('monadic call inside a search loop condition')
+            if self.is_declared(v) and v in self.opt_locals:
+                return ['%s%s := (%s).find? (fun %s => %s)' % (ind, v, self.e(s.iter), x, cond)]
             if self.is_declared(v):
                 return ['%smatch (%s).find? (fun %s => %s) with' % (ind, self.e(s.iter), x, cond),
                         '%s| some v_ => %s := v_' % (ind, v),
@@ -612,9 +615,19 @@ class TrKeyDict(Tr):
                 and self.src(s.targets[0].slice) == 'key' and isinstance(s.targets[0].value, ast.Call) \
                 and self.src(s.targets[0].value.func) == 'self.get_class_dict' and len(s.targets[0].value.args) == 1:
             return ['%sd_ := (← KeyDict.del d_ %s)' % (ind, self.atom(s.targets[0].value.args[0]))]
+        if isinstance(s, ast.Assign) and len(s.targets) == 1 and isinstance(s.targets[0], ast.Name) \
+                and self.src(s.value) == 'self.get_classification(key)':
+            x = s.targets[0].id
+            self.declared[-1].add(x)
+            return ['%slet %s := (KeyDict.valuesAndClass (← get_valid_classes self_shape) d_).map (·.1)' % (ind, x)]
         if isinstance(s, ast.Expr) and isinstance(s.value, ast.Call) and self.src(s.value.func) == 'self._change_class' \
                 and len(s.value.args) == 2 and self.src(s.value.args[0]) == 'key':
-            return ['%sd_ := (← change_class null self_shape self_n_slices d_ %s)' % (ind, self.atom(s.value.args[1]))]
+            a = s.value.args[1]
+            if isinstance(a, ast.Name) and a.id in self.opt_locals:
+                # `_change_class(key, None)`: `_get_changed_class` finds None in no row of `_preserving_changes` → ValueError
+                return ['%smatch %s with' % (ind, a.id), '%s| none => throw PyErr.valueError' % ind,
+                        '%s| some c_ => d_ := (← change_class null self_shape self_n_slices d_ c_)' % ind]
+            return ['%sd_ := (← change_class null self_shape self_n_slices d_ %s)' % (ind, self.atom(a))]
         if isinstance(s, ast.Expr) and isinstance(s.value, ast.Call) and isinstance(s.value.func, ast.Attribute) \
                 and s.value.func.attr == 'extend' and len(s.value.args) == 1:
             tgt = s.value.func.value
@@ -773,7 +786,7 @@ GROUP_OF = {
     'get_shape_counts': 'stack', 'chk_order_check': 'stack',
     'global_slice_subset': 'values', 'insert_slice_interleave': 'values', 'insert_sample_interleave': 'values',
     'copy_slice_dest': 'values', 'copy_slice_vals': 'values', 'get_changed_class': 'values',
-    'change_class': 'insert', 'insert_slice': 'insert', 'insert_non_slice': 'insert', 'insert_sample': 'insert',
+    'reclassify': 'insert', 'change_class': 'insert', 'insert_slice': 'insert', 'insert_non_slice': 'insert', 'insert_sample': 'insert',
     'get_data_trim': 'data', 'file_idx_volume': 'data', 'file_idx_slice': 'data', 'get_data': 'data',
 }
 GROUP_IMPORTS = {
@@ -1112,6 +1125,31 @@ def translate():
              '`DcmMetaExtension.%s` (dcmmeta.py) for one key, translated statement by statement: the dictionaries of `self` are the '
              '`KeyDict` `d`, `other` is read through its shape, slice count and the key\'s values / class; '
              '`local_vals` is an alias of the stored list (`extend` writes it back under the class it was read from)' % nm,
+             prologue=['let mut d_ := d'])
+    # _insert: the reclassification of one key (body of its first loop over `other_keys`)
+    f = find_func(dm, 'DcmMetaExtension', '_insert')
+    body = None
+    if f is not None:
+        for node in ast.walk(f):
+            if isinstance(node, ast.For) and node.body and ast.unparse(node.body[0]).startswith('local_classes = self.get_classification(key)'):
+                body = node.body
+    if body is None:
+        missing.append('reclassify: loop with local_classes = self.get_classification(key) not found in _insert')
+    else:
+        tr = TrKeyDict({'self._preserving_changes[local_classes]': '(preserving local_classes)',
+                        'self._preserving_changes[other_classes]': '(preserving (some other_classes))',
+                        'local_classes != other_classes': '(local_classes != some other_classes)',
+                        'local_classes in other_allow': '(match local_classes with | some lc_ => other_allow.contains lc_ | none => false)',
+                        'self._content': 'content', 'best_dest = None': ''},
+                       {}, cls_vars=['other_classes', 'dest_class'])
+        tr.opt_locals = {'best_dest'}
+        tr.stmt_map = {'best_dest = None': ['let mut best_dest : Option Cls := none']}
+        tr.stmt_map_declares = {'best_dest = None': ['best_dest']}
+        emit('reclassify', KD_SIG + '(content : List String) (other_classes : Cls) : Except PyErr (KeyDict α)',
+             body + [ast.parse('return').body[0]], tr,
+             'the reclassification `DcmMetaExtension._insert` applies to one key before inserting (dcmmeta.py, body of its first '
+             'loop over the keys of `other`): widen the class `self` holds the key under to the class `other` uses, or to the first '
+             'class both can be widened to',
              prologue=['let mut d_ := d'])
     # ---- check_valid
     f = find_func(dm, 'DcmMetaExtension', 'check_valid')
